@@ -56,6 +56,50 @@ class SymProvider:
     def sampled_real(self, name, sampler):
         return self.real(name)
 
+    # ---- IEEE binary64 inputs (symrun/fp.py)
+    def fp(self, name, lo=None, hi=None):
+        from . import fp
+
+        v = z3.FP(name, fp.F64)
+        self.inputs[name] = "fp"
+        CTX.cons.append(z3.And(z3.Not(z3.fpIsNaN(v)), z3.Not(z3.fpIsInf(v))))
+        if lo is not None:
+            CTX.cons.append(z3.fpGEQ(v, fp.fpval(lo)))
+        if hi is not None:
+            CTX.cons.append(z3.fpLEQ(v, fp.fpval(hi)))
+        return fp.SymFP(v)
+
+    def fp_mode(self, g):
+        import contextlib
+        import math
+
+        from . import fp
+
+        @contextlib.contextmanager
+        def cm():
+            old_tp = getattr(g.util, "TWO_PI", None)
+            CTX.fp_mode = True
+            g.util.TWO_PI = fp.SymFP(fp.fpval(2 * math.pi))
+            try:
+                yield
+            finally:
+                CTX.fp_mode = False
+                g.util.TWO_PI = old_tp
+
+        return cm()
+
+    def check_bits(self, name, a, b):
+        """the two doubles are bit-identical"""
+        from . import fp
+
+        la = numpy.array(a, dtype=object).reshape(-1)
+        lb = numpy.array(b, dtype=object).reshape(-1)
+        if la.shape != lb.shape:
+            self.fail(name, "shape %s vs %s" % (la.shape, lb.shape))
+            return
+        for i, (x, y) in enumerate(zip(la, lb)):
+            self.check("%s[%d]" % (name, i), fp.same_bits(x, y))
+
     def reals(self, name, n, **kw):
         return [self.real("%s_%d" % (name, i), **kw) for i in range(n)]
 
@@ -238,6 +282,8 @@ def model_to_inputs(model, inputs):
             base[name] = float(model.get(name, 0.0))
         elif kind == "int":
             base[name] = int(round(model.get(name, 0)))
+        elif kind == "fp":
+            base[name] = float(model.get(name, 0.0))
         elif kind.startswith("quat:"):
             quats.setdefault(kind[5:], {})[name] = float(model.get(name, 0.0))
         elif kind == "angle":
